@@ -118,6 +118,17 @@ func isEOFish(err error) bool {
 
 // c12Decode decodes `data` (the first `whole` items are complete; if cut is true the data ends inside item `whole`)
 // through the real decoder and checks arguments, offsets and the end-of-input behaviour.
+// c12MustDecode calls the tool's decoder. A panic that escapes it (the decoder reports malformed input by returning
+// an error; its callers in the tool do not recover) is the decoder's answer to this input and is reported as one.
+func c12MustDecode(dec *client.Decoder) (rp client.Resp, off int64, err error) {
+	defer func() {
+		if x := recover(); x != nil {
+			err = fmt.Errorf("panic in the decoder: %v", x)
+		}
+	}()
+	return client.MustDecodeOpt(dec)
+}
+
 func c12Decode(items []c12Item, whole int, data []byte, cut bool, rd io.Reader, bufSize int, ctx string) *Violation {
 	dec := client.NewDecoder(bufio.NewReaderSize(rd, bufSize))
 	var sum int64
@@ -139,7 +150,7 @@ func c12Decode(items []c12Item, whole int, data []byte, cut bool, rd io.Reader, 
 	}
 	for k := 0; k < whole; k++ {
 		it := items[k]
-		rp, off, err := client.MustDecodeOpt(dec)
+		rp, off, err := c12MustDecode(dec)
 		if err != nil {
 			return c12Viol("C12.decode_error", "well-formed item rejected", "%s: item %d [%s] (%d bytes at offset %d): decoder returned %v", ctx, k, fmtCmd(it.name, it.args), len(it.raw), sum, err)
 		}
@@ -159,7 +170,7 @@ func c12Decode(items []c12Item, whole int, data []byte, cut bool, rd io.Reader, 
 	if v := recheck(); v != nil {
 		return v
 	}
-	rp, off, err := client.MustDecodeOpt(dec)
+	rp, off, err := c12MustDecode(dec)
 	if err == nil {
 		cmd, args, _ := client.ParseArgs(rp)
 		what := "at the clean end of the input"
@@ -492,7 +503,7 @@ func runC12Encoder(r *Run) *Violation {
 	nargs := 0
 	for i, s := range cmds {
 		ctx := fmt.Sprintf("encoder round trip, command %d (%s, %d args), fragments %s, bufio %d", i, s.name, len(s.vals), desc, bufSize)
-		rp, off, err := client.MustDecodeOpt(dec)
+		rp, off, err := c12MustDecode(dec)
 		if err != nil {
 			return c12Viol("C12.roundtrip_error", "encoded command rejected by the decoder", "%s: decoder returned %v", ctx, err)
 		}
@@ -534,7 +545,7 @@ func runC12Encoder(r *Run) *Violation {
 	if prev != int64(len(data)) {
 		return c12Viol("C12.roundtrip_offset", "offset after a re-decoded command differs from the bytes consumed", "encoder wrote %d bytes, decoder consumed %d", len(data), prev)
 	}
-	if rp, _, err := client.MustDecodeOpt(dec); err == nil || !isEOFish(err) {
+	if rp, _, err := c12MustDecode(dec); err == nil || !isEOFish(err) {
 		return c12Viol("C12.phantom", "a command was decoded after the end of the input", "after the last encoded command the decoder returned (%T, %v)", rp, err)
 	}
 	r.Evals = 1
